@@ -185,7 +185,8 @@ CbEvent(st, f, doneActs) ==
       cur  |-> IF kind = 0 THEN NoT ELSE st.cur,
       pend |-> IF kind = 3 THEN st.pend ELSE NoT,
       plan |-> IF kind = 0 THEN <<>> ELSE st.plan,
-      acts |-> doneActs ]
+      acts |-> doneActs,
+      mact2 |-> st.active ]
 
 \* deliver callback frame f = Head(st.k), the user code performing `acts`
 CbStep(st, acts) ==
